@@ -59,19 +59,25 @@ def split_call(t):
 
 
 class Path:
-    """one execution path: path condition + recorded events"""
-    __slots__ = ("pc", "events", "notes")
+    """one execution path: path condition + recorded events + stores into symbolic objects"""
+    __slots__ = ("pc", "events", "notes", "stores")
 
-    def __init__(self, pc=(), events=(), notes=()):
+    def __init__(self, pc=(), events=(), notes=(), stores=None):
         self.pc = tuple(pc)
         self.events = tuple(events)
         self.notes = tuple(notes)
+        self.stores = stores or {}
 
     def add(self, c):
-        return Path(self.pc + (c,), self.events, self.notes)
+        return Path(self.pc + (c,), self.events, self.notes, self.stores)
 
     def event(self, e):
-        return Path(self.pc, self.events + (e,), self.notes)
+        return Path(self.pc, self.events + (e,), self.notes, self.stores)
+
+    def store(self, obj_path, idx, ty, val):
+        st = dict(self.stores)
+        st[(obj_path, idx)] = val
+        return Path(self.pc, self.events + (("store", obj_path, idx, ty, val),), self.notes, st)
 
 
 class Outcome:
@@ -436,6 +442,9 @@ class Exec:
                 raise Unsupported("field %d of %r" % (idx, base))
             return base.f[idx]
         if isinstance(base, SymV):
+            cp = getattr(self, "cur_path", None)
+            if cp is not None and (base.path, idx) in cp.stores:
+                return cp.stores[(base.path, idx)]
             return base.field(idx, ty)
         if isinstance(base, DurationV) and idx == 0:
             return IntV(base.secs, 64, True)
@@ -621,19 +630,29 @@ class Exec:
         stmts = fn.blocks[bb]
         env = dict(env)
         for st in stmts[:-1]:
-            self.statement(st, env, fn)
+            self.cur_path = path
+            path = self.statement(st, env, fn, path)
+        self.cur_path = path
         yield from self.terminator(stmts[-1], fn, env, path, depth, steps + 1)
 
-    def statement(self, st, env, fn):
+    def statement(self, st, env, fn, path):
         if st.startswith(("StorageLive", "StorageDead", "nop", "FakeRead", "AscribeUserType", "Retag", "PlaceMention", "Coverage", "ConstEvalCounter")):
-            return
+            return path
         m = re.match(r"^(.+?) = (.*)$", st, re.S)
         if not m:
             raise Unsupported("statement %r in %s" % (st, fn.name))
         val = self.rvalue(m.group(2), env, fn)
-        self.write_place(parse_place(m.group(1)), val, env, fn)
+        pl = parse_place(m.group(1))
+        if pl[0] == "field" and pl[1][0] == "deref":
+            base = self.read_place(pl[1], env, fn)
+            if isinstance(base, SymV):
+                return path.store(base.path, pl[2], pl[3], val)
+            raise Unsupported("store through a reference to %r in %s" % (base, fn.name))
+        self.write_place(pl, val, env, fn)
+        return path
 
     def terminator(self, t, fn, env, path, depth, steps):
+        self.cur_path = path
         if t == "return":
             yield Outcome("return", path, env.get("_0", UNIT))
             return
